@@ -54,14 +54,32 @@ func ZZ_C13_OnlyValidSuccessors() {
 	payload := []byte("{}")
 	// candidate
 	h := &types.Header{Height: zzsym.U32("height"), Timestamp: zzsym.U32("ts"), ConsensusPayload: payload}
-	copy(h.PrevBlockHash[:], zzsym.Bytes("prev", 32))
-	copy(h.BlockRoot[:], zzsym.Bytes("blockroot", 32))
+	wantRoot := l.GetBlockRootWithPreBlockHashes(2, []common.Uint256{tip.Hash()})
+	// parent hash / block root: the interesting exact values are offered by kind (so that a model replays
+	// natively, where hashes are real), plus a fully symbolic alternative
+	switch zzsym.Choose("prevkind", 3) {
+	case 0:
+		h.PrevBlockHash = tip.Hash()
+	case 1:
+		h.PrevBlockHash = g.Hash()
+	default:
+		copy(h.PrevBlockHash[:], zzsym.Bytes("prev", 32))
+	}
+	switch zzsym.Choose("rootkind", 4) {
+	case 0:
+		h.BlockRoot = wantRoot
+	case 1:
+		h.BlockRoot = common.UINT256_EMPTY
+	case 2:
+		h.BlockRoot = tip.Header.BlockRoot
+	default:
+		copy(h.BlockRoot[:], zzsym.Bytes("blockroot", 32))
+	}
 	h.Bookkeepers = []keypair.PublicKey{zzsym.PubKey(0)}
 	hash := h.Hash()
 	zzsym.Assume(hash != common.UINT256_EMPTY)
 	h.SigData = [][]byte{zzsym.Signature("sig", 0, hash[:])}
 	cand := &types.Block{Header: h}
-	wantRoot := l.GetBlockRootWithPreBlockHashes(2, []common.Uint256{tip.Hash()})
 	res, err := l.executeBlock(cand)
 	if err != nil {
 		panic("zz: executeBlock")
